@@ -48,3 +48,20 @@ func VerifSharedResponses() map[string]*admissionv1.AdmissionResponse {
 		"runtimeClass": sharedAllowedByRuntimeClassExemptionResponse,
 	}
 }
+
+// VerifConstants exposes the package-level tables and defaults the formal model
+// mirrors, so that the verification harness re-reads them from the source on
+// every run.
+func VerifConstants() (ignoredSubresources []string, podSpecResources []string, maxPods int, timeout time.Duration) {
+	for s, on := range ignoredPodSubresources {
+		if on {
+			ignoredSubresources = append(ignoredSubresources, s)
+		}
+	}
+	for gr, on := range defaultPodSpecResources {
+		if on {
+			podSpecResources = append(podSpecResources, gr.Group+"/"+gr.Resource)
+		}
+	}
+	return ignoredSubresources, podSpecResources, defaultNamespaceMaxPodsToCheck, defaultNamespacePodCheckTimeout
+}
